@@ -151,6 +151,31 @@ ScalarMultiplication<S, O> operator*(O &&o, const S &s) {
 }
 
 /*!
+ * @brief Represents the reciprocal 1/s of a scalar s.
+ *
+ * The division is carried out in the data type T of the spline the operator is
+ * applied to (and not in the type S of the scalar, which may be an integral
+ * type, such that 1/s would be truncated to zero).
+ *
+ * @tparam S The type of the scalar.
+ */
+template <typename S>
+struct ScalarReciprocal final {
+  /*! The divisor. */
+  S s;
+
+  /*!
+   * Conversion to the data type of the spline.
+   *
+   * @tparam T The data type of the spline.
+   */
+  template <typename T>
+  explicit operator T() const {
+    return static_cast<T>(1) / static_cast<T>(s);
+  }
+};
+
+/*!
  * @brief The scalar division operator for an operator.
  *
  * @param o The operator to be divided.
@@ -162,8 +187,8 @@ ScalarMultiplication<S, O> operator*(O &&o, const S &s) {
 template <
     typename S, typename O,
     std::enable_if_t<are_scalar_multiplication_types_v<S, O>, bool> = true>
-ScalarMultiplication<S, O> operator/(O &&o, const S &s) {
-  return ScalarMultiplication(static_cast<S>(1) / s, std::forward<O>(o));
+ScalarMultiplication<ScalarReciprocal<S>, O> operator/(O &&o, const S &s) {
+  return ScalarMultiplication(ScalarReciprocal<S>{s}, std::forward<O>(o));
 }
 
 /*!
